@@ -338,6 +338,44 @@ def build() -> Check:
         if got != ["item<d0>", "item<d1>"]:
             badb.append(f"two wire items are rebuilt as {got if got is not None else (v.key() if v is not None else t.exc_class())}")
     ck.ob("R9.batch-items-rebuilt-in-order", fn_construct(br_cls.methods["from_dict"]), not badb and rdb, "; ".join(badb[:2]) or f"{len(rdb)} paths")
+    # R10 exact types: `case list():` / isinstance accept subclass instances (namedtuple, IntEnum, OrderedDict, a list subclass), which are then encoded
+    # as - and decoded to - the base type: "same types at every nesting level" needs either an exact-type dispatch or a rejection of subclasses
+    def subclass_accepting_arms(tree):
+        out = []
+        for n_ in ast.walk(tree):
+            if isinstance(n_, ast.match_case):
+                pats = n_.pattern.patterns if isinstance(n_.pattern, ast.MatchOr) else [n_.pattern]
+                for p_ in pats:
+                    if isinstance(p_, ast.MatchClass) and not p_.patterns and not p_.kwd_patterns and isinstance(p_.cls, (ast.Name, ast.Attribute)):
+                        nm_ = ast.unparse(p_.cls)
+                        if nm_ in ("str", "int", "float", "list", "tuple", "dict", "bytes", "bytearray", "datetime", "date", "Decimal", "uuid.UUID"):
+                            guard_exact = n_.guard is not None and "type(" in ast.unparse(n_.guard)
+                            if not guard_exact:
+                                out.append((nm_, p_.lineno))
+        return out
+
+    arms = []
+    for cname in [c_ for c_ in sd.classes if c_.endswith("Codec")]:
+        enc_ = sd.classes[cname].methods.get("encode")
+        if enc_ is not None:
+            arms += [(cname, nm_, ln_) for nm_, ln_ in subclass_accepting_arms(enc_.node)]
+    import re as _re
+    exact_guard = any(_re.search(r"type\([^)]*\)\s*(is|==|in|not in|!=)\s", ast.unparse(m_.node)) and "SerDesError" in ast.unparse(m_.node)
+                      for c_ in sd.classes.values() for m_ in c_.methods.values())
+    ck.floor("encode_dispatch_arms", len(arms), 8)
+    ck.ob("R10.subclass-instances-not-downgraded", "serdes.py:*Codec.encode", exact_guard or not arms,
+          f"{len(arms)} dispatch arms match by class pattern (e.g. {arms[0][0]} `case {arms[0][1]}():` line {arms[0][2]}) and nothing rejects subclasses: a namedtuple is "
+          "accepted and comes back as a tuple, an IntEnum member as an int, an OrderedDict as a dict - accepted and silently altered" if arms else "")
+    # R11 str through json: json.dumps(ensure_ascii=True) writes a high surrogate followed by a low one as two \\uXXXX escapes, json.loads reads them back as one
+    # astral character - the only str values the JSON text round trip is not injective on. They must be rejected or encoded differently.
+    ser_fn = sd.classes["ExtendedTypeSerDes"].methods.get("serialize") if "ExtendedTypeSerDes" in sd.classes else None
+    if ser_fn is None:
+        raise AnalysisError("ExtendedTypeSerDes.serialize not found")
+    txt_all = "\n".join(ast.unparse(m_.node) for c_ in sd.classes.values() for m_ in c_.methods.values())
+    handles = any(tok in txt_all for tok in ("surrogate", "\\ud800", "\\udc00", "0xD800", "0xd800"))
+    ck.ob("R11.adjacent-surrogates-survive", fn_construct(ser_fn), handles,
+          "strings are written with json.dumps(ensure_ascii=True) and read with json.loads and nothing looks at surrogates: the two-character string '\\ud83d\\ude00' is accepted "
+          "and comes back as the one-character string '\\U0001f600' (two distinct dict keys collapse into one)")
     return ck
 
 
